@@ -772,6 +772,12 @@ var c12Degenerate = []lkCfg{
 	{Kind: "P2PK", Data: "K1", NSigs: 3, PubTag: true, Pubkeys: []string{"K1", "K2"}},
 	{Kind: "P2PK", Data: "K1", NSigs: 2, PubTag: true, Pubkeys: []string{"K2", "K2"}},
 	{Kind: "P2PK", Data: "K1", NSigs: 3, PubTag: true, Pubkeys: []string{"K2", "K2"}},
+	// a key listed twice with ANOTHER key in between (the lock key again behind a co-signer; a co-signer twice around
+	// another one): it still counts once
+	{Kind: "P2PK", Data: "K1", NSigs: 2, PubTag: true, Pubkeys: []string{"K2", "K1"}},
+	{Kind: "P2PK", Data: "K1", NSigs: 3, PubTag: true, Pubkeys: []string{"K2", "K1"}},
+	{Kind: "P2PK", Data: "K1", NSigs: 3, PubTag: true, Pubkeys: []string{"K2", "K3", "K2"}},
+	{Kind: "P2PK", Data: "K1", NSigs: 2, PubTag: true, Pubkeys: []string{"K2", "K3", "K1"}},
 	{Kind: "P2PK", Data: "nonhex", NSigs: -1},
 	{Kind: "P2PK", Data: "nonhex", NSigs: 1, PubTag: true, Pubkeys: []string{"K2"}},
 }
